@@ -1,3 +1,4 @@
+import ZkElGamal.Props.C04
 import ZkElGamal.Model.Decode
 import ZkElGamal.Model.Text
 import ZkElGamal.Proofs.Slices
@@ -469,3 +470,95 @@ theorem json_roundtrip (b : Bytes) : jsonBytes (jsonOfBytes b) = some b := by
     · rw [hel]; simp [skipWs]
 
 end Zk.Props.C12
+
+/-! ## the context of the batched range proofs as an encoding -/
+namespace Zk.Props.C12.RangeContext
+open Zk Zk.Range
+
+variable {G : Type} [AddCommGroup G] [DecidableEq G] [PtCodec G] [PedGens G] [LawfulPtCodec G] [PtLen G]
+
+theorem flatten_slices (b : Bytes) (n : ℕ) (h : 32 * n ≤ b.length) :
+    ((List.range n).map fun i => slice b (32 * i) 32).flatten = b.take (32 * n) := by
+  induction n with
+  | zero => simp
+  | succ n ih =>
+    rw [List.range_succ, List.map_append, List.flatten_append, ih (by omega)]
+    simp only [List.map_cons, List.map_nil, List.flatten_cons, List.flatten_nil, List.append_nil, slice]
+    rw [show 32 * (n + 1) = 32 * n + 32 by ring, List.take_add]
+
+omit [DecidableEq G] [PtLen G] [PedGens G] in
+theorem mapM_dec_enc (l : List Bytes) (cs : List G) (h : l.mapM PtCodec.dec = some cs) :
+    cs.map PtCodec.enc = l := by
+  induction l generalizing cs with
+  | nil => simp at h; subst h; rfl
+  | cons x xs ih =>
+    simp only [List.mapM_cons, Option.bind_eq_bind, Option.bind_eq_some_iff, Option.pure_def, Option.some.injEq] at h
+    obtain ⟨y, hy, ys, hys, rfl⟩ := h
+    simp [ih ys hys, LawfulPtCodec.enc_dec x y hy]
+
+
+theorem all_zero_replicate {α : Type} [BEq α] [LawfulBEq α] (l : List α) (z : α) (h : ∀ x ∈ l, x = z) :
+    l = List.replicate l.length z := by
+  exact List.eq_replicate_iff.mpr ⟨rfl, h⟩
+
+theorem flatten_replicate_zero32 (n : ℕ) : (List.replicate n zero32).flatten = List.replicate (32 * n) (0 : UInt8) := by
+  induction n with
+  | zero => rfl
+  | succ n ih =>
+    rw [List.replicate_succ, List.flatten_cons, ih, zero32, ← List.replicate_add]; congr 1; ring
+
+/-- **the range-proof context is a canonical encoding**: a 264-byte string that decodes to `(commitments, bit
+    lengths)` is exactly the encoding of what it decoded to -/
+theorem context_reencode (ctx : Bytes) (comms : List G) (bls : List ℕ) (hl : ctx.length = 264)
+    (h : parseContext ctx = some (comms, bls)) : encodeContext comms bls = ctx := by
+  obtain ⟨hm, hb, hne, hrange, hz1, hz2⟩ := (C04.context_ok_iff ctx comms bls).mp h
+  obtain ⟨h8, _⟩ := C04.context_at_most_eight ctx comms bls h
+  set k := comms.length with hk
+  -- the used slots are the first k slots
+  have hused : ((C04.slots ctx).takeWhile fun p => !(p == zero32)) = (C04.slots ctx).take k := by
+    have hp := List.takeWhile_prefix (fun p => !(p == zero32)) (l := C04.slots ctx)
+    have := List.prefix_iff_eq_take.mp hp
+    rw [this]; congr 1
+    rw [← C04.mapM_some_length _ _ _ hm]
+  have henc : comms.map PtCodec.enc = (C04.slots ctx).take k := by rw [← hused]; exact mapM_dec_enc _ _ hm
+  have hslen : (C04.slots ctx).length = 8 := by simp [C04.slots]
+  -- commitments part
+  have hcs : (comms.map PtCodec.enc).flatten.length = 32 * k := by
+    have : ∀ l : List G, (l.map PtCodec.enc).flatten.length = 32 * l.length := by
+      intro l; induction l with
+      | nil => simp
+      | cons x xs ih => simp [PtLen.pt_len, ih]; ring
+    exact this comms
+  have hdrop : (C04.slots ctx).drop k = List.replicate (8 - k) zero32 := by
+    have := all_zero_replicate ((C04.slots ctx).drop k) zero32 hz1
+    rw [this]; simp [hslen]
+  have h256 : (comms.map PtCodec.enc).flatten ++ List.replicate (256 - (comms.map PtCodec.enc).flatten.length) 0 = ctx.take 256 := by
+    have hf := flatten_slices ctx 8 (by omega)
+    rw [show 32 * 8 = 256 by rfl] at hf
+    rw [← hf, show ((List.range 8).map fun i => slice ctx (32 * i) 32) = C04.slots ctx from rfl]
+    conv_rhs => rw [← List.take_append_drop k (C04.slots ctx), List.flatten_append, ← henc, hdrop, flatten_replicate_zero32]
+    rw [hcs]; congr 2; omega
+  -- bit lengths part
+  set L := slice ctx 256 8 with hL
+  have hLlen : L.length = 8 := by simp [hL, slice, hl]
+  have hLeq : L = ctx.drop 256 := by
+    simp only [hL, slice]; apply List.take_of_length_le; simp [hl]
+  have hbl : bls.map UInt8.ofNat = L.take k := by
+    rw [hb]; simp only [C04.bitLengthBytes, ← hL, ← List.map_take, List.map_map]
+    conv_rhs => rw [← List.map_id (L.take k)]
+    apply List.map_congr_left; intro x _; simp
+  have hLdrop : L.drop k = List.replicate (8 - k) 0 := by
+    have hz : ∀ x ∈ L.drop k, x = 0 := by
+      intro x hx
+      have := hz2 x.toNat (by
+        simp only [C04.bitLengthBytes, ← hL, ← List.map_drop]; exact List.mem_map_of_mem hx)
+      exact UInt8.toNat_inj.mp (by simpa using this)
+    have := all_zero_replicate (L.drop k) 0 hz
+    rw [this]; simp [hLlen]
+  have hbllen : (bls.map UInt8.ofNat).length = k := by rw [hbl]; simp [hLlen]; omega
+  unfold encodeContext
+  simp only
+  rw [List.append_assoc, List.append_assoc, ← List.append_assoc ((comms.map PtCodec.enc).flatten), h256, hbllen, hbl, ← hLdrop,
+    List.take_append_drop, hLeq, List.take_append_drop]
+
+end Zk.Props.C12.RangeContext
